@@ -20,6 +20,7 @@ import (
 	"errors"
 	"fmt"
 	"path/filepath"
+	"strings"
 
 	"github.com/compose-spec/compose-go/v2/tree"
 	"github.com/compose-spec/compose-go/v2/types"
@@ -113,12 +114,25 @@ func (r *relativePathsResolver) absPath(value any) (any, error) {
 			return v, nil
 		}
 		if v != "" {
-			return filepath.Join(r.workingDir, v), nil
+			return r.join(v), nil
 		}
 		return v, nil
 	}
 
 	return nil, fmt.Errorf("unexpected type %T", value)
+}
+
+// join makes a relative path relative to the working directory. Included and extended files are first resolved
+// against a directory that is itself relative to the project directory, and the result is resolved again with the
+// rest of the model: a relative result that would then be read as a home directory, a remote build context or a
+// Windows absolute path (file in a directory named `~`, `github.com/...`, `C:`; value written `./~`) keeps a
+// leading `./` so that it stays a local path.
+func (r *relativePathsResolver) join(p string) string {
+	joined := filepath.Join(r.workingDir, p)
+	if !filepath.IsAbs(joined) && (strings.HasPrefix(joined, "~") || isRemoteContext(joined) || isWindowsAbs(joined)) {
+		return "." + string(filepath.Separator) + joined
+	}
+	return joined
 }
 
 func (r *relativePathsResolver) absVolumeMount(a any) (any, error) {
